@@ -446,6 +446,20 @@ fn real_main(args: Vec<String>) -> i32 {
             println!("{:#?}", syn::parse(&src));
             0
         }
+        Some("nest") => {
+            // vcheck nest [family] [depth]: print a nesting family (all families: well-formedness summary)
+            let depth: usize = args.get(2).and_then(|s| s.parse().ok()).unwrap_or(3);
+            match args.get(1).map(|s| s.as_str()) {
+                Some(f) if f != "all" => print!("{}", vlib::gen::nest::same(f, depth)),
+                _ => {
+                    for f in vlib::gen::nest::FAMILIES {
+                        let s = vlib::gen::nest::same(f, depth);
+                        println!("{f}: wf={} bytes={}", syn::wf(&s), s.len());
+                    }
+                }
+            }
+            0
+        }
         Some("gen") => {
             // vcheck gen <focus> <n> <seed>
             use vlib::gen::grammar::{document, Focus};
